@@ -679,7 +679,8 @@ func pcExecute(pc pcCase, opts gopacket.DecodeOptions) *pcExec {
 	ex := &pcExec{run: &pcRun{table: pc.table, lastPayload: -1}}
 	pcCur = ex.run
 	defer func() { pcCur = nil }()
-	ex.input = append([]byte{}, pc.data...)
+	ex.input = make([]byte, len(pc.data))
+	copy(ex.input, pc.data)
 	func() {
 		defer func() {
 			if r := recover(); r != nil {
@@ -735,10 +736,25 @@ func pcExecute(pc pcCase, opts gopacket.DecodeOptions) *pcExec {
 	return ex
 }
 
-func (ex *pcExec) dispose() {
-	if pp, ok := ex.pkt.(gopacket.PooledPacket); ok {
-		pp.Dispose()
+func (ex *pcExec) dispose() { pcDisposeScrubbed(ex.pkt) }
+
+// pcDisposeScrubbed returns a pooled packet's block to the pool with all 1500 bytes zeroed.
+// NewPacket(Pool) slices the block to len(data) but keeps its capacity, so a decoder that
+// slices past len (a missing length check) reads whatever an earlier packet left in the block
+// instead of panicking (reported by the all-layers sweep; a C04/C19 matter).  Scrubbing keeps
+// that hidden input constant (zero) for both packets of a lazy/eager pair, so this check
+// stays deterministic and about the framework.
+func pcDisposeScrubbed(pkt gopacket.Packet) {
+	pp, ok := pkt.(gopacket.PooledPacket)
+	if !ok {
+		return
 	}
+	d := pkt.Data()
+	d = d[:cap(d)]
+	for i := range d {
+		d[i] = 0
+	}
+	pp.Dispose()
 }
 
 // position (by pointer identity) of a returned layer in the final Layers(); -1 when absent
